@@ -246,6 +246,7 @@ type Node struct {
 	Mux     *event.TypeMux
 	Engine  *solo.Solo
 	Ucon    bool // opened with the Ucon-shaped stub engine (side-chain import paths active)
+	Plain   bool // no staking module registered (the configuration of the repository's own core tests)
 }
 
 func copyDB(src *youdb.MemDatabase) *youdb.MemDatabase {
@@ -273,6 +274,19 @@ func openNode(db *youdb.MemDatabase, pendingEv []staking.Evidence) *Node {
 }
 
 func openNodeWith(db *youdb.MemDatabase, pendingEv []staking.Evidence, ucon bool) *Node {
+	return openNodeOpt(db, pendingEv, ucon, false)
+}
+
+// NewPlainNode: fixture genesis, NO staking module (blocks without txs have no receipts at all).
+func NewPlainNode(f *Fixture) *Node {
+	db := youdb.NewMemDatabase()
+	if _, err := core.SetupGenesisBlock(db, params.NetworkIdForTestCase, f.Genesis()); err != nil {
+		panic(err)
+	}
+	return openNodeOpt(db, nil, false, true)
+}
+
+func openNodeOpt(db *youdb.MemDatabase, pendingEv []staking.Evidence, ucon, plain bool) *Node {
 	eng := solo.NewSolo()
 	eng.Update(true, 0, 1)
 	var engine consensus.Engine = eng
@@ -286,19 +300,21 @@ func openNodeWith(db *youdb.MemDatabase, pendingEv []staking.Evidence, ucon bool
 		panic(err)
 	}
 	st := staking.NewStaking(nil) // nil mux: no background goroutines; evidences are injected
-	st.Register(bc.Processor())
+	if !plain {
+		st.Register(bc.Processor())
+	}
 	if err := st.Start(bc, engine); err != nil {
 		panic(err)
 	}
 	for _, e := range pendingEv {
 		st.VerifAddEvidence(e)
 	}
-	return &Node{DB: db, BC: bc, Staking: st, Mux: mux, Engine: eng, Ucon: ucon}
+	return &Node{DB: db, BC: bc, Staking: st, Mux: mux, Engine: eng, Ucon: ucon, Plain: plain}
 }
 
 // Fork returns an independent node with the same chain, state and pending evidences.
 func (n *Node) Fork() *Node {
-	return openNodeWith(copyDB(n.DB), n.Staking.VerifEvidences(), n.Ucon)
+	return openNodeOpt(copyDB(n.DB), n.Staking.VerifEvidences(), n.Ucon, n.Plain)
 }
 
 // ForkUcon is Fork with the Ucon-shaped stub engine (importer whose side-chain paths are active).
